@@ -987,3 +987,460 @@ fn st_id_calls_total() {
     }
     core::mem::forget(c);
 }
+
+// =================================================================== C14 Maximum Packet Size
+#[kani::proof]
+#[kani::unwind(6)]
+fn c14_total_size_kernel() {
+    let rl: u32 = kani::any();
+    kani::assume(rl <= 268_435_455);
+    let n = if rl < 128 {
+        1
+    } else if rl < 16_384 {
+        2
+    } else if rl < 2_097_152 {
+        3
+    } else {
+        4
+    };
+    assert!(remaining_length_to_total_size(rl) == 1 + n + rl, "[C14] total size = fixed header + length of the Remaining Length field + Remaining Length");
+    let v = crate::mqtt::packet::VariableByteInteger::from_u32(rl).unwrap();
+    assert!(v.size() == n as usize, "[C14] same length as the variable byte integer encoding");
+}
+
+// v5.0 PUBACK sent under a peer limit L around its size (4 bytes)
+#[kani::proof]
+#[kani::unwind(7)]
+fn st_send_puback_v5_limit() {
+    set_detail(true);
+    let mut c = fam_server_connected(Version::V5_0);
+    let l: u32 = kani::any();
+    kani::assume(l >= 1);
+    c.maximum_packet_size_send = l;
+    let id: u16 = kani::any();
+    kani::assume(id != 0);
+    let pre = tm_of(&c);
+    let p = v5_0::GenericPuback::<u16>::builder().packet_id(id).build().unwrap();
+    let ev = c.process_send_v5_0_puback(p);
+    monitor(pre, &ev, &c);
+    kani::cover!(l == 3, "limit one below the size");
+    kani::cover!(l == 4, "limit equal to the size");
+    if l < 4 {
+        assert!(ev.len() == 1 && is_err(&sm(&ev, 0), MqttError::PacketTooLarge), "[C14] a packet larger than the peer's Maximum Packet Size is refused");
+    } else {
+        assert!(is_send(&sm(&ev, 0)) && sm(&ev, 0).pkt.size == 4 && sm(&ev, 0).pkt.id == id as u32, "[C14] a packet within the limit is sent unchanged");
+    }
+    let mut i = 0;
+    while i < ev.len() {
+        let e = sm(&ev, i);
+        if e.kind == K_SEND {
+            assert!(e.pkt.size as u64 <= l as u64, "[C14] no requested packet exceeds the peer's Maximum Packet Size");
+        }
+        i += 1;
+    }
+    core::mem::forget(ev);
+    core::mem::forget(c);
+}
+
+// v5.0 QoS1 PUBLISH (size 9) under a limit around its size: refusal must release the identifier
+#[kani::proof]
+#[kani::unwind(7)]
+#[kani::stub(core::str::from_utf8, utf8_model)]
+fn st_send_publish_v5_limit() {
+    set_detail(true);
+    let mut c = fam_client_connected(Version::V5_0);
+    let l: u32 = kani::any();
+    kani::assume(l >= 7 && l <= 11);
+    c.maximum_packet_size_send = l;
+    let id: u16 = kani::any();
+    kani::assume(id != 0);
+    c.pid_man.register_id(id).unwrap();
+    let pre = tm_of(&c);
+    let p = mk_pub5(1, id, false);
+    let sz = p.size();
+    assert!(sz == 9, "harness: PUBLISH shape has 9 bytes");
+    let ev = c.process_send_v5_0_publish(p);
+    monitor(pre, &ev, &c);
+    if (sz as u32) > l {
+        assert!(count(&ev, is_send) == 0 && is_err(&sm(&ev, 0), MqttError::PacketTooLarge), "[C14] an oversize PUBLISH is refused");
+        assert!(!c.pid_puback.contains(&id), "[C11] refused send records nothing");
+        assert!(count(&ev, |e| is_released(e, id)) == 1 && !c.pid_man.is_used_id(id), "[C08] a refused send releases the identifier it carried (exactly once)");
+    } else {
+        assert!(is_send(&sm(&ev, 0)) && sm(&ev, 0).pkt.size == 9, "[C14] a PUBLISH within the limit is sent");
+        assert!(c.pid_man.is_used_id(id) && c.pid_puback.contains(&id), "[C06] id held for PUBACK");
+    }
+    core::mem::forget(ev);
+    core::mem::forget(c);
+}
+
+// automatic topic-alias mapping must not push a PUBLISH over the peer's limit
+#[kani::proof]
+#[kani::unwind(7)]
+#[kani::stub(core::str::from_utf8, utf8_model)]
+fn st_send_publish_v5_automap_limit() {
+    set_detail(true);
+    let mut c = fam_client_connected(Version::V5_0);
+    c.auto_map_topic_alias_send = true;
+    c.topic_alias_send = Some(TopicAliasSend::new(3));
+    let l: u32 = kani::any();
+    kani::assume(l >= 6 && l <= 12);
+    c.maximum_packet_size_send = l;
+    let pre = tm_of(&c);
+    // QoS0 PUBLISH, topic "t", no properties, 1 payload byte: 7 bytes on the wire
+    let body: [u8; 5] = [0, 1, b't', 0, 0x55];
+    let arc: crate::mqtt::common::Arc<[u8]> = crate::mqtt::common::Arc::from(&body[..]);
+    let p = v5_0::GenericPublish::<u16>::parse(0, arc).unwrap().0;
+    assert!(p.size() == 7, "harness: PUBLISH shape has 7 bytes");
+    let ev = c.process_send_v5_0_publish(p);
+    monitor(pre, &ev, &c);
+    let mut i = 0;
+    let mut sent = 0;
+    while i < ev.len() {
+        let e = sm(&ev, i);
+        if e.kind == K_SEND {
+            sent += 1;
+            assert!(e.pkt.size as u64 <= l as u64, "[C14] a PUBLISH rewritten by automatic alias mapping never exceeds the peer's Maximum Packet Size");
+            assert!(e.pkt.alias >= 1 && e.pkt.alias <= 3 && !e.pkt.topic_empty, "[C13] a new automatic mapping sends the topic together with its alias");
+        }
+        i += 1;
+    }
+    if l < 7 {
+        assert!(sent == 0, "[C14] oversize before mapping: refused");
+    }
+    kani::cover!(sent == 1, "a mapped PUBLISH is sent");
+    core::mem::forget(ev);
+    core::mem::forget(c);
+}
+
+// inbound: a frame larger than the locally announced maximum is answered with DISCONNECT 0x95 and not delivered
+#[kani::proof]
+#[kani::unwind(7)]
+#[kani::stub(core::str::from_utf8, utf8_model)]
+fn st_recv_packet_too_large() {
+    set_detail(true);
+    let mut c = fam_server_connected(Version::V5_0);
+    let l: u32 = kani::any();
+    kani::assume(l >= 1);
+    c.maximum_packet_size_recv = l;
+    let pre = tm_of(&c);
+    // PINGREQ with an (invalid) 3-byte body: 5 bytes on the wire
+    let raw = pbh::verif_raw(0xC0, &[1, 2, 3]);
+    let ev = c.process_recv_packet(raw);
+    monitor(pre, &ev, &c);
+    kani::cover!(l == 4, "limit one below the frame size");
+    kani::cover!(l == 5, "limit equal to the frame size");
+    assert!(count(&ev, is_recv) == 0, "[C14] not delivered");
+    if l < 5 {
+        let n = ev.len();
+        assert!(n >= 3 && is_send(&sm(&ev, n - 3)) && is_close(&sm(&ev, n - 2)) && is_err(&sm(&ev, n - 1), MqttError::PacketTooLarge), "[C14,C19] oversize frame: DISCONNECT, close, error");
+        assert!(sm(&ev, n - 3).pkt.ptype == 14 && sm(&ev, n - 3).pkt.rc == 0x95, "[C14] DISCONNECT carries Packet too large");
+        assert!(c.status == ConnectionStatus::Disconnected, "[C14] connection given up");
+    } else {
+        assert!(count(&ev, |e| is_err(e, MqttError::PacketTooLarge)) == 0, "[C14] a frame within the limit is not rejected for its size");
+    }
+    core::mem::forget(ev);
+    core::mem::forget(c);
+}
+
+// =================================================================== C06/C16 resume and restore
+fn mk_pubrel311(id: u16) -> v3_1_1::GenericPubrel<u16> {
+    v3_1_1::GenericPubrel::<u16>::builder().packet_id(id).build().unwrap()
+}
+
+// CONNACK (v3.1.1) received while connecting with a stored QoS1 PUBLISH and a stored PUBREL
+#[kani::proof]
+#[kani::unwind(7)]
+#[kani::stub(core::str::from_utf8, utf8_model)]
+fn st_recv_connack_v311_resume() {
+    set_detail(true);
+    let mut c = CC::new(Version::V3_1_1);
+    c.status = ConnectionStatus::Connecting;
+    c.is_client = true;
+    c.need_store = true;
+    let ka: u16 = kani::any();
+    c.pingreq_keep_alive_ms = ka as u64 * 1000;
+    c.pingreq_send_set = ka != 0; // armed by the CONNECT that was sent
+    let i: u16 = kani::any();
+    let k: u16 = kani::any();
+    kani::assume(i != 0 && k != 0 && i != k);
+    c.pid_man.register_id(i).unwrap();
+    c.pid_man.register_id(k).unwrap();
+    c.pid_puback.insert(i);
+    c.pid_pubcomp.insert(k);
+    c.store.add(mk_pub311(1, i, true).try_into().unwrap()).unwrap();
+    c.store.add(mk_pubrel311(k).try_into().unwrap()).unwrap();
+    let sp: bool = kani::any();
+    let pre = tm_of(&c);
+    let raw = pbh::verif_raw(0x20, &[sp as u8, 0]);
+    let ev = c.process_recv_v3_1_1_connack(raw);
+    monitor(pre, &ev, &c);
+    assert!(c.status == ConnectionStatus::Connected, "[C11] accepted CONNACK establishes the connection");
+    if sp {
+        assert!(ev.len() == 3, "[C06] resume: the stored packets then the CONNACK notification");
+        let e0 = sm(&ev, 0);
+        let e1 = sm(&ev, 1);
+        assert!(is_send(&e0) && e0.pkt.ptype == 3 && e0.pkt.id == i as u32 && e0.pkt.dup && e0.pkt.qos == 1 && !e0.pkt.topic_empty, "[C06] first stored packet re-sent first: same id, DUP set, full topic");
+        assert!(is_send(&e1) && e1.pkt.ptype == 6 && e1.pkt.id == k as u32, "[C06] stored PUBREL re-sent in store order with the same id");
+        assert!(is_recv(&sm(&ev, 2)), "[C06] CONNACK delivered after the retransmissions were requested");
+        assert!(sth::len(&c.store) == 2 && c.pid_man.is_used_id(i) && c.pid_man.is_used_id(k), "[C06] packets stay stored and ids held until acknowledged");
+    } else {
+        assert!(sth::len(&c.store) == 0 && !c.pid_man.is_used_id(i) && !c.pid_man.is_used_id(k), "[C06] session not present: store emptied and identifiers freed");
+        assert!(c.pid_puback.len() == 0 && c.pid_pubcomp.len() == 0, "[C06] session not present: nothing awaits an acknowledgement");
+        assert!(count(&ev, is_send) == 0 && ev.len() == 1 && is_recv(&sm(&ev, 0)), "[C06] nothing is retransmitted into a new session");
+    }
+    core::mem::forget(ev);
+    core::mem::forget(c);
+}
+
+// restore_packets into a fresh object: wait sets, ids, order
+#[kani::proof]
+#[kani::unwind(7)]
+#[kani::stub(core::str::from_utf8, utf8_model)]
+fn st_restore_packets_v311() {
+    let mut c = CC::new(Version::V3_1_1);
+    let i: u16 = kani::any();
+    let j: u16 = kani::any();
+    let k: u16 = kani::any();
+    kani::assume(i != 0 && j != 0 && k != 0);
+    kani::assume(i != j && j != k && i != k);
+    let mut v: Vec<GenericStorePacket<u16>> = Vec::new();
+    v.push(mk_pub311(1, i, true).try_into().unwrap());
+    v.push(mk_pub311(2, j, true).try_into().unwrap());
+    v.push(mk_pubrel311(k).try_into().unwrap());
+    c.restore_packets(v);
+    assert!(sth::len(&c.store) == 3 && sth::id_at(&c.store, 0) == Some(i) && sth::id_at(&c.store, 1) == Some(j) && sth::id_at(&c.store, 2) == Some(k), "[C16] restored packets keep their order");
+    assert!(c.pid_man.is_used_id(i) && c.pid_man.is_used_id(j) && c.pid_man.is_used_id(k), "[C16] restored identifiers are in use");
+    assert!(c.pid_puback.contains(&i) && c.pid_pubrec.contains(&j) && c.pid_pubcomp.contains(&k), "[C16] each restored packet waits for the acknowledgement of its kind");
+    assert!(c.pid_puback.len() == 1 && c.pid_pubrec.len() == 1 && c.pid_pubcomp.len() == 1, "[C16] nothing else is waited for");
+    let a = c.acquire_packet_id().unwrap();
+    assert!(a != i && a != j && a != k, "[C16] a restored identifier cannot be re-acquired");
+    assert!(c.register_packet_id(i).is_err(), "[C16] a restored identifier cannot be registered again");
+    core::mem::forget(c);
+}
+
+// malformed export: the same identifier twice (different kinds)
+#[kani::proof]
+#[kani::unwind(7)]
+#[kani::stub(core::str::from_utf8, utf8_model)]
+fn st_restore_packets_duplicate_id() {
+    let mut c = CC::new(Version::V3_1_1);
+    let i: u16 = kani::any();
+    kani::assume(i != 0);
+    let mut v: Vec<GenericStorePacket<u16>> = Vec::new();
+    v.push(mk_pub311(1, i, true).try_into().unwrap());
+    v.push(mk_pub311(2, i, true).try_into().unwrap());
+    c.restore_packets(v);
+    assert!(sth::len(&c.store) == 1 && sth::info(&c.store, i) == Some((1, true, false, false)), "[C16] a duplicate identifier in the export is skipped, the first entry is kept");
+    assert!(c.pid_man.is_used_id(i) && c.pid_puback.contains(&i), "[C16] first entry restored");
+    assert!(!c.pid_pubrec.contains(&i), "[C16] a skipped entry leaves nothing waiting for an acknowledgement");
+    core::mem::forget(c);
+}
+
+// handled-id set export / restore round trip
+#[kani::proof]
+#[kani::unwind(7)]
+fn st_handled_export_restore() {
+    let mut c = CC::new(Version::V3_1_1);
+    let h: u16 = kani::any();
+    let g: u16 = kani::any();
+    kani::assume(h != 0 && g != 0 && h != g);
+    c.qos2_publish_handled.insert(h);
+    c.qos2_publish_handled.insert(g);
+    let exp = c.get_qos2_publish_handled();
+    let mut f = CC::new(Version::V3_1_1);
+    f.restore_qos2_publish_handled(exp);
+    let q: u16 = kani::any();
+    assert!(f.qos2_publish_handled.contains(&q) == (q == h || q == g), "[C16,C07] the restored handled-id set equals the exported one");
+    assert!(c.qos2_publish_handled.contains(&q) == (q == h || q == g), "[C16] exporting does not change the set");
+    core::mem::forget(c);
+    core::mem::forget(f);
+}
+
+// =================================================================== server receives CONNECT (C05, C10, C15)
+#[kani::proof]
+#[kani::unwind(7)]
+#[kani::stub(core::str::from_utf8, utf8_model)]
+fn st_recv_connect_v311_server() {
+    // a disconnected server object that served a connection before: connection-scoped leftovers symbolic
+    let mut c = SC::new(Version::V3_1_1);
+    let old_ka: u16 = kani::any();
+    c.pingreq_recv_timeout_ms = old_ka as u64 * 1000 * 3 / 2;
+    c.need_store = kani::any();
+    let ka: u16 = kani::any();
+    let clean: bool = kani::any();
+    let b: [u8; 13] = [0, 4, b'M', b'Q', b'T', b'T', 4, (clean as u8) << 1, (ka >> 8) as u8, ka as u8, 0, 1, b'c'];
+    let raw = pbh::verif_raw(0x10, &b);
+    let pre = tm_of(&c);
+    kani::cover!(ka == 0 && old_ka != 0, "keep-alive 0 after a connection with keep-alive");
+    let ev = c.process_recv_v3_1_1_connect(raw);
+    monitor(pre, &ev, &c);
+    assert!(c.status == ConnectionStatus::Connecting && count(&ev, is_recv) == 1, "[C17] CONNECT accepted while disconnected");
+    if ka == 0 {
+        assert!(ev.len() == 1 && !c.pingreq_recv_set, "[C15,C10] a server never arms the receive timer for keep-alive 0 (whatever an earlier connection used)");
+    } else {
+        assert!(ev.len() == 2 && is_reset(&sm(&ev, 0), TimerKind::PingreqRecv, ka as u64 * 1500), "[C15] a server arms the 1.5 x keep-alive receive timer on CONNECT");
+    }
+    assert!(c.need_store == !clean, "[C10] persistence follows this CONNECT only");
+    core::mem::forget(ev);
+    core::mem::forget(c);
+}
+
+// v5.0 CONNECT carrying Topic Alias Maximum (all u16 values incl. 0)
+#[kani::proof]
+#[kani::unwind(7)]
+#[kani::stub(core::str::from_utf8, utf8_model)]
+fn st_recv_connect_v5_server_tam() {
+    let mut c = SC::new(Version::V5_0);
+    let ka: u16 = kani::any();
+    let v: u16 = kani::any();
+    let b: [u8; 16] = [0, 4, b'M', b'Q', b'T', b'T', 5, 0x02, (ka >> 8) as u8, ka as u8, 3, 0x22, (v >> 8) as u8, v as u8, 0, 0];
+    let raw = pbh::verif_raw(0x10, &b);
+    let pre = tm_of(&c);
+    kani::cover!(v == 0, "Topic Alias Maximum 0");
+    let ev = c.process_recv_v5_0_connect(raw);
+    monitor(pre, &ev, &c);
+    assert!(c.status == ConnectionStatus::Connecting && count(&ev, is_recv) == 1, "[C05] valid CONNECT delivered");
+    assert!(c.topic_alias_send.is_some() == (v != 0), "[C13] the send-side alias table exists exactly when the peer's Topic Alias Maximum is > 0");
+    core::mem::forget(ev);
+    core::mem::forget(c);
+}
+
+// QoS1/2 PUBLISH accepted without an error is either requested for sending or stored (never silently dropped)
+fn publish_never_dropped(v5: bool) {
+    let mut c = CC::new(v311_or_v5(v5));
+    c.is_client = true;
+    let st: u8 = kani::any();
+    kani::assume(st <= 2);
+    c.status = match st {
+        0 => ConnectionStatus::Disconnected,
+        1 => ConnectionStatus::Connecting,
+        _ => ConnectionStatus::Connected,
+    };
+    c.need_store = kani::any();
+    c.offline_publish = kani::any();
+    if c.offline_publish {
+        kani::assume(c.need_store);
+    }
+    let id: u16 = kani::any();
+    kani::assume(id != 0);
+    c.pid_man.register_id(id).unwrap();
+    let q2: bool = kani::any();
+    let qos = if q2 { 2 } else { 1 };
+    let pre = tm_of(&c);
+    kani::cover!(st == 1 && c.need_store && !c.offline_publish, "persistent session, still connecting");
+    kani::cover!(st == 0 && c.need_store && !c.offline_publish, "persistent session, between two connections");
+    let ev = if v5 { c.process_send_v5_0_publish(mk_pub5(qos, id, false)) } else { c.process_send_v3_1_1_publish(mk_pub311(qos, id, false)) };
+    let errs = count(&ev, is_any_err);
+    let sent = count(&ev, is_send);
+    let stored = sth::has(&c.store, id);
+    if errs == 0 {
+        assert!(sent == 1 || stored, "[C06] a QoS>0 PUBLISH accepted without an error event is requested for sending or kept in the store, never silently dropped");
+        assert!(c.pid_man.is_used_id(id), "[C06] the identifier of an accepted PUBLISH is held");
+        assert!((sent == 1) == (st == 2), "[C11] passed to the transport exactly when connected");
+        if stored {
+            assert!(sth::info(&c.store, id) == Some((qos, true, false, false)), "[C06] stored copy has DUP set, its QoS and the full topic");
+        }
+        if c.need_store && st == 2 {
+            assert!(stored, "[C06] on a persistent session every sent QoS>0 PUBLISH is stored");
+        }
+    } else {
+        assert!(sent == 0 && !stored, "[C11] a refused PUBLISH is neither sent nor stored");
+        assert!(!c.pid_man.is_used_id(id) && count(&ev, |e| is_released(e, id)) == 1, "[C08] a refused send releases its identifier exactly once");
+    }
+    core::mem::forget(ev);
+    core::mem::forget(c);
+}
+#[kani::proof]
+#[kani::unwind(7)]
+#[kani::stub(core::str::from_utf8, utf8_model)]
+fn st_send_publish_v311_never_dropped() {
+    publish_never_dropped(false)
+}
+#[kani::proof]
+#[kani::unwind(7)]
+#[kani::stub(core::str::from_utf8, utf8_model)]
+fn st_send_publish_v5_never_dropped() {
+    publish_never_dropped(true)
+}
+
+// the application erases a stored PUBLISH: slot freed, id released, only that packet
+#[kani::proof]
+#[kani::unwind(7)]
+#[kani::stub(core::str::from_utf8, utf8_model)]
+fn st_erase_stored_publish_v5() {
+    let mut c = fam_client_connected(Version::V5_0);
+    c.need_store = true;
+    let i: u16 = kani::any();
+    let k: u16 = kani::any();
+    kani::assume(i != 0 && k != 0 && i != k);
+    let q2: bool = kani::any();
+    c.pid_man.register_id(i).unwrap();
+    c.pid_man.register_id(k).unwrap();
+    if q2 {
+        c.pid_pubrec.insert(i);
+    } else {
+        c.pid_puback.insert(i);
+    }
+    c.pid_pubcomp.insert(k);
+    c.store.add(mk_pub5(if q2 { 2 } else { 1 }, i, true).try_into().unwrap()).unwrap();
+    c.store.add(v5_0::GenericPubrel::<u16>::builder().packet_id(k).build().unwrap().try_into().unwrap()).unwrap();
+    let m: u16 = kani::any();
+    kani::assume(m >= 2);
+    c.publish_send_max = Some(m);
+    c.publish_send_count = 2;
+    let x: u16 = kani::any();
+    kani::cover!(x == i && q2, "erase a stored QoS2 PUBLISH");
+    kani::cover!(x == k, "erase called with the id of a stored PUBREL");
+    let ev = c.erase_stored_publish(x);
+    if x == i {
+        assert!(!sth::has(&c.store, i) && sth::len(&c.store) == 1, "[C06] the application erased exactly that PUBLISH");
+        assert!(c.publish_send_count == 1 && c.get_receive_maximum_vacancy_for_send() == Some(m - 1), "[C12] an erased exchange frees its Receive Maximum slot (QoS1 and QoS2 alike)");
+        assert!(ev.len() == 1 && is_released(&sm(&ev, 0), i) && !c.pid_man.is_used_id(i), "[C08] erasing releases the identifier exactly once");
+        assert!(!c.pid_puback.contains(&i) && !c.pid_pubrec.contains(&i), "[C06] nothing is awaited for an erased PUBLISH");
+    } else {
+        assert!(ev.len() == 0 && sth::len(&c.store) == 2 && c.publish_send_count == 2, "[C06] erase of anything but a stored PUBLISH changes nothing");
+        assert!(c.pid_man.is_used_id(i) && c.pid_man.is_used_id(k), "[C08] nothing released");
+    }
+    assert!(sth::has(&c.store, k) && c.pid_pubcomp.contains(&k) && c.pid_man.is_used_id(k), "[C06] a stored PUBREL is never erased by erase_stored_publish");
+    core::mem::forget(ev);
+    core::mem::forget(c);
+}
+
+// =================================================================== C07: PUBREC sent by the application (v5.0)
+#[kani::proof]
+#[kani::unwind(7)]
+fn st_send_pubrec_v5_handled() {
+    let mut c = fam_server_connected(Version::V5_0);
+    let h: u16 = kani::any();
+    let g: u16 = kani::any();
+    kani::assume(h != 0 && g != 0 && h != g);
+    c.qos2_publish_handled.insert(h);
+    c.qos2_publish_handled.insert(g);
+    c.publish_recv.insert(h);
+    c.publish_recv.insert(g);
+    c.publish_recv_max = Some(2);
+    let rcb: u8 = kani::any();
+    let rc = match PubrecReasonCode::try_from(rcb) {
+        Ok(r) => r,
+        Err(_) => return,
+    };
+    let with_rc: bool = kani::any();
+    let mut b = v5_0::GenericPubrec::<u16>::builder().packet_id(h);
+    if with_rc {
+        b = b.reason_code(rc);
+    }
+    let p = b.build().unwrap();
+    let pre = tm_of(&c);
+    kani::cover!(with_rc && rcb == 0x10, "PUBREC No matching subscribers (a success code)");
+    kani::cover!(with_rc && rcb >= 0x80, "PUBREC with an error code");
+    let ev = c.process_send_v5_0_pubrec(p);
+    monitor(pre, &ev, &c);
+    let refused = with_rc && rcb >= 0x80;
+    assert!(c.qos2_publish_handled.contains(&h) == !refused, "[C07] only an error PUBREC makes the next PUBLISH with that id a new message");
+    assert!(c.publish_recv.contains(&h) == !refused, "[C12] only an error PUBREC frees the inbound Receive Maximum slot");
+    assert!(c.qos2_publish_handled.contains(&g) && c.publish_recv.contains(&g), "[C07] other exchanges untouched");
+    assert!(is_send(&sm(&ev, 0)), "[C11] PUBREC passed to the transport when connected");
+    core::mem::forget(ev);
+    core::mem::forget(c);
+}
+
